@@ -716,6 +716,10 @@ fn do_provide(
                 }
             }
             // C15: accepted => bound
+            let slip = match (&s.cfg.ptype, slippage, first) {
+                (PType::Stable { .. }, Some(t), false) => Some(stable_deposit_verdict(u256(before.reserves[0]) + u256(before.reserves[1]), before.share, u256(amounts[0]) + u256(amounts[1]), minted_total, dec_atomics(t))),
+                _ => slip,
+            };
             if let (Some(v), false) = (slip, first) {
                 ctx.eval("C15");
                 if v == Slip::MustReject {
@@ -731,6 +735,15 @@ fn do_provide(
         o => {
             let e = o.err_text();
             if e.contains("Slippage tolerance exceeded") {
+                let slip = match (&s.cfg.ptype, slippage, first) {
+                    (PType::Stable { amp }, Some(t), false) => stable2::predicted_mint(*amp, before.reserves, amounts, before.share).map(|m| {
+                        let sp = u256(before.reserves[0]) + u256(before.reserves[1]);
+                        let sd = u256(amounts[0]) + u256(amounts[1]);
+                        let vs = [m.saturating_sub(1).max(1), m, m.saturating_add(1)].map(|mm| stable_deposit_verdict(sp, before.share, sd, mm, dec_atomics(t)));
+                        if vs.iter().all(|v| *v == Slip::MustAccept) { Slip::MustAccept } else { Slip::Either }
+                    }),
+                    _ => slip,
+                };
                 if let (Some(v), false) = (slip, first) {
                     ctx.eval("C15");
                     ctx.probe("deposit_rejected_for_slippage");
@@ -780,6 +793,33 @@ pub fn deposit_slippage_verdict(pt: &PType, d: [u128; 2], r: [u128; 2], t18: u12
             }
         }
         PType::Stable { .. } => Slip::Either,
+    }
+}
+
+/// Documented bound for stableswap deposits (pair and 3-pool):
+/// (sum of reserves / LP supply) * (1 - t) <= (sum of deposits / LP minted), 18-decimal fixed point
+pub fn stable_deposit_verdict(sum_p: U256, share: u128, sum_d: U256, minted: u128, t18: u128) -> Slip {
+    if t18 > E18 {
+        return Slip::MustReject;
+    }
+    if minted == 0 || share == 0 {
+        return Slip::Either;
+    }
+    let wide = |x: U256| -> U1024 {
+        let d = x.digits();
+        let mut out = [0u64; 16];
+        out[..4].copy_from_slice(d);
+        U1024::from_digits(out)
+    };
+    let lhs = wide(sum_p) * u1024(E18 - t18) * u1024(minted);
+    let rhs = wide(sum_d) * u1024(share) * u1024(E18);
+    let unit = u1024(share) * u1024(minted);
+    if lhs + unit <= rhs {
+        Slip::MustAccept
+    } else if lhs > rhs + unit + unit {
+        Slip::MustReject
+    } else {
+        Slip::Either
     }
 }
 
